@@ -39,7 +39,7 @@ def run(tier):
     os.environ["NUMBA_ENABLE_CUDASIM"] = "1"
     try:
         trs = R.run_traces(V, PID, tier, sd,
-                           lambda rnd: [("gain", rnd.choice([-2.5, 0.3, 7.0])), ("delay", rnd.choice([1, 2])), ("delay", rnd.choice([3, 5, 8])), ("tiny", rnd.choice([-40, -30, -20])), ("delaysingle", 4)],
+                           lambda rnd: [("gain", rnd.choice([-2.5, 0.3, 7.0])), ("delay", rnd.choice([1, 2])), ("delay", rnd.choice([3, 5, 8])), ("tiny", rnd.choice([-40, -30, -20])), ("delaysingle", 4), ("delayline",)],
                            n_quick=12, n_thorough=72, backends=("numba", "numpy", "numba", "numpy", "numba", "cuda"),
                            # long records, short segments: bins with K far above the NumPy kernels' chunk sizes ("identically whichever backend")
                            extra=[dict(N=150000, fs=1.0, data="drift", sched="ltf", win="hann", order=o, backend="numpy", Jdes=12, Kdes=20, Lmin=1, psll=120)
